@@ -19,15 +19,17 @@ Qed.
 
 Ltac each_in H := repeat (destruct H as [<-|H]; [|]); try contradiction.
 
-(** every directly described method except Readdir: by computation with symbolic arguments *)
+(** every directly described method except Readdir and Walk: by computation with symbolic arguments *)
 Lemma transparent_direct v name e :
-  In v versions -> In name direct_methods -> name <> "Readdir" ->
+  In v versions -> In name direct_methods -> name <> "Readdir" -> name <> "Walk" ->
   backend_calls v name e = expected v name e.
 Proof.
-  intros Hv Hn Hne. destruct e as [param fid newfid pfid msize].
+  intros Hv Hn Hne Hnw. destruct e as [param fid newfid pfid msize].
   unfold versions in Hv. unfold direct_methods in Hn.
   cbn [In] in Hv, Hn.
-  repeat (destruct Hn as [<-|Hn]; [try congruence; repeat (destruct Hv as [<-|Hv]; [vm_compute; reflexivity|]); contradiction|]).
+  repeat (destruct Hn as [<-|Hn];
+          [try congruence;
+           repeat (destruct Hv as [<-|Hv]; [cbv -[N.modulo N.land N.ltb N.add N.sub N.min]; reflexivity|]); contradiction|]).
   contradiction.
 Qed.
 
@@ -40,13 +42,28 @@ Proof.
               [mkbc "Readdir" (OnFid fid)
                  [param "offset";
                   match param "count" with
-                  | VN c => VN (if (msize - 11 <? c)%N then (msize - 11)%N else c)
+                  | VN c => VN (if (msize - (7 + 4) <? c)%N then (msize - (7 + 4))%N else c)
                   | x => x
                   end]]).
   { unfold versions in Hv. cbn [In] in Hv.
-    repeat (destruct Hv as [<-|Hv]; [vm_compute; destruct (param "count"); reflexivity|]). contradiction. }
-  rewrite E. unfold expected. cbn. destruct (param "count") as [c| | | | | | |]; try reflexivity.
+    repeat (destruct Hv as [<-|Hv];
+            [cbv -[N.modulo N.land N.ltb N.add N.sub N.min]; destruct (param "count"); reflexivity|]). contradiction. }
+  rewrite E. change (7 + 4)%N with 11%N.
+  unfold expected. cbn -[N.min N.ltb N.sub]. destruct (param "count") as [c| | | | | | |]; try reflexivity.
   do 3 f_equal. destruct (N.ltb_spec (msize - 11) c); [rewrite N.min_r|rewrite N.min_l]; auto; lia.
+Qed.
+
+(** Walk: one WalkGetAttr per component on the server (a clone is one Walk(nil)) *)
+Lemma transparent_walk v e :
+  In v versions -> backend_calls v "Walk" e = expected v "Walk" e.
+Proof.
+  intros Hv. destruct e as [param fid newfid pfid msize].
+  assert (E : client_msgs v "Walk" (mkenv param fid newfid pfid msize) =
+              [("twalk", [("fid", VN fid); ("newFID", VN newfid); ("Names", param "names")])]).
+  { unfold versions in Hv. cbn [In] in Hv.
+    repeat (destruct Hv as [<-|Hv]; [cbv; reflexivity|]). contradiction. }
+  unfold backend_calls. rewrite E. cbn [flat_map]. rewrite app_nil_r.
+  cbv -[map]. destruct (param "names") as [| |l| | | | |]; try reflexivity.
 Qed.
 
 (** only message types the negotiated version defines *)
@@ -106,8 +123,9 @@ Definition rets_ok (name : string) (fields : list string) : bool :=
   | Some m =>
       forallb (fun s =>
                  let r := if String.eqb name "Lock" then "r" else gs_r s in
-                 list_eq_dec string_dec (gs_rets s)
-                   (map (fun f => r ++ "." ++ f) fields ++ [if String.eqb name "Lock" then "err" else "nil"]))
+                 if list_eq_dec string_dec (gs_rets s)
+                      (map (fun f => r ++ "." ++ f) fields ++ [if String.eqb name "Lock" then "err" else "nil"])
+                 then true else false)
               (gm_sends m)
   | None => false
   end.
